@@ -9,8 +9,11 @@ own two-sided self-test, all static (nothing is executed):
   (K1) every file the check analysed is re-emitted by ast.unparse (all
   formatting, comments and line numbers change), (K2) three comment lines are
   prepended to every analysed file (pure line shift), (K3) every docstring and
-  bare string statement is removed; the check must stay silent on each (same
-  exit code as on the unmodified tree and no new violation).
+  bare string statement is removed, (K4) locals renamed; and, hand-made, every
+  refactoring kept under seeded/P-<this property>-<n> (extract/inline/split,
+  guard clauses, dispatch tables, ... written by agents that saw only the
+  property text); the check must stay silent on each (same exit code as on the
+  unmodified tree and no new violation).
 
 A variant whose patch no longer applies to the tree under analysis (because the
 tree itself was changed there) is reported as `stale` and not counted.  A
@@ -129,6 +132,9 @@ def run_thorough(pid: str, mod) -> int:
     mx = json.load(open(mx_path)) if mx_path.exists() else {}
     breaking = sorted(s for s, m in mx.items() if pid in m.get("caught_by", []))
     keeps = ["K1-unparse", "K2-lineshift", "K3-nodocstrings", "K4-rename-locals"]
+    # hand-made behaviour-preserving refactorings of the code this property is anchored in (seeded/P-<pid>-<n>, DESIGN §14)
+    refactorings = sorted(p.name for p in (VERIF / "seeded").glob("P-%s-*" % pid)
+                          if (p / "patch.diff").exists() and "obsolete" not in json.load(open(p / "meta.json")))
 
     def do_break(sid: str):
         d = _scratch()
@@ -148,7 +154,13 @@ def run_thorough(pid: str, mod) -> int:
     def do_keep(kind: str):
         d = _scratch()
         try:
-            _preserving(kind, [f for f in analysed_files if (d / f).exists()], d)
+            if kind.startswith("P-"):
+                subprocess.run(["git", "init", "-q", "."], cwd=d, capture_output=True)
+                r = subprocess.run(["git", "apply", "--whitespace=nowarn", str(VERIF / "seeded" / kind / "patch.diff")], cwd=d, capture_output=True, text=True)
+                if r.returncode != 0:
+                    return kind, "stale", "patch does not apply to the tree under analysis"
+            else:
+                _preserving(kind, [f for f in analysed_files if (d / f).exists()], d)
             c, lines = _run(pid, d)
             viol = [l for l in lines if l.startswith(("VIOLATION", "ANALYSIS-ERROR"))]
             if c == base_rc and (c == 1 or not viol):
@@ -160,7 +172,7 @@ def run_thorough(pid: str, mod) -> int:
     results = []
     with ThreadPoolExecutor(max_workers=min(12, (os.cpu_count() or 4))) as ex:
         fb = [ex.submit(do_break, s) for s in breaking]
-        fk = [ex.submit(do_keep, k) for k in keeps]
+        fk = [ex.submit(do_keep, k) for k in keeps + refactorings]
         for f in fb + fk:
             results.append(f.result())
     failed = [r for r in results if r[1] in ("MISSED", "FALSE-ALARM")]
@@ -168,7 +180,7 @@ def run_thorough(pid: str, mod) -> int:
         "breaking_variants": len(breaking),
         "fired_as_expected": sum(1 for r in results if r[1] == "fired"),
         "stale_variants": sum(1 for r in results if r[1] == "stale"),
-        "preserving_variants": len(keeps),
+        "preserving_variants": len(keeps) + len(refactorings),
         "silent_as_expected": sum(1 for r in results if r[1] == "silent"),
         "files_rewritten_per_preserving_variant": len(analysed_files),
         "results": [{"variant": a, "verdict": b, "detail": c} for a, b, c in results],
